@@ -131,6 +131,16 @@ partial def completeB : DType Float → PVal Float → Bool
   | _, _ => true
 end
 
+/-- `Spec.C02.LimitsOnGrid`, executable (hypothesis of `client_cache_string_write`) -/
+partial def limitsB : DType Float → Bool
+  | .scaled scale min max _ _ =>
+    (match DType.snap scale min with | some lo => decide (SnapFix scale lo) | none => true) &&
+    (match DType.snap scale max with | some hi => decide (SnapFix scale hi) | none => true)
+  | .array e _ _ => limitsB e
+  | .tuple es => es.all limitsB
+  | .struct ms _ _ => ms.all (fun m => limitsB m.2)
+  | _ => true
+
 /-- the instances of `TextLib.Lawful.fmtDouble` / `fmtScaled` at the float leaves of `v` hold (a hypothesis of
 `text_roundtrip`, decided here so that a case outside it is counted and not judged) -/
 partial def fmtLawB (L : TextLib Float) : List Nat → DType Float → PVal Float → Bool
@@ -249,7 +259,7 @@ def handle (j : Json) : R Json := do
       | .bytes b => Base64.decode? (Base64.encode b) == some b
       | _ => true
     return Json.mkObj [("wf", .bool dt.wfB), ("valid", .bool valid), ("canon", .bool canon), ("complete", .bool complete),
-      ("fmtlaw", .bool fmtlaw), ("cvalid", match cvalid with | some b => .bool b | none => .null), ("model", Json.mkObj [
+      ("fmtlaw", .bool fmtlaw), ("cvalid", match cvalid with | some b => .bool b | none => .null), ("limits", .bool (limitsB dt)), ("model", Json.mkObj [
         ("exp", outToJson jvalToJson (some mexp)), ("node", outToJson pvalToJson mnode),
         ("client", outToJson pvalToJson mclient), ("cdt", jopt dtypeToJson cdt),
         ("text", outToJson textToJson (some mtext)), ("back", outToJson pvalToJson mback),
